@@ -442,6 +442,63 @@ def loadComment (c : Codec) (data : Bytes) : Except PyErr (Nat × Bytes) :=
       | [] => .ok (0, [])
     | _ => .ok (rest.length, [])
 
+/-! ### VComment.load: the vendor string and the comments it returns -/
+
+/-- `is_valid_key`: printable ASCII 0x20–0x7D without '=', not empty -/
+def validKey (k : Bytes) : Bool :=
+  !k.isEmpty && k.all fun b => decide (0x20 ≤ b.toNat) && decide (b.toNat ≤ 0x7D) && decide (b ≠ Vorbis.eqSign)
+
+/-- "unknown%d" % i, the key given to a comment without '=' -/
+def unknownKey (i : Nat) : Bytes := ("unknown" ++ toString i).toUTF8.toList
+
+/-- the comment loop of `VComment.load(errors='replace')` at byte level: per comment a 4-byte length
+(`none`: fewer than 4 bytes left, `cdata.error`), as many bytes as are there, split at the first '=' (no
+'=': key "unknown<i>"), kept when the key is valid.  Keys with non-ASCII bytes go through
+`decode('utf-8', 'replace')` / `encode('ascii', 'replace')`: outside the model (`some none`). -/
+def loadComments : Nat → Nat → Bytes → Option (Option (List (Bytes × Bytes) × Bytes))
+  | 0, _, d => some (some ([], d))
+  | n + 1, i, d =>
+    if d.length < 4 then none
+    else
+      let s := (d.drop 4).take (ofLE (d.take 4))
+      let rest := (d.drop 4).drop (ofLE (d.take 4))
+      let kv := match Vorbis.splitEq s with
+        | some kv => kv
+        | none => (unknownKey i, s)
+      if !(kv.1.all fun b => decide (b.toNat < 128)) then some none
+      else
+        match loadComments n (i + 1) rest with
+        | none => none
+        | some none => some none
+        | some (some (cs, tail)) => some (some (if validKey kv.1 then kv :: cs else cs, tail))
+
+/-- `VComment.load(fileobj, errors='replace', framing)` on the bytes `d`: vendor string, comments (key,
+value as bytes; UTF-8 decoding of valid UTF-8 is a separate layer), and what is left of `d` behind the
+comment (and the framing bit).  MutagenError for a truncated header or an unset framing bit. -/
+def loadVC (d : Bytes) (framing : Bool) : Except PyErr (Bytes × List (Bytes × Bytes) × Bytes) :=
+  if d.length < 4 then .error .mutagen
+  else
+    let vendor := (d.drop 4).take (ofLE (d.take 4))
+    let r1 := (d.drop 4).drop (ofLE (d.take 4))
+    if r1.length < 4 then .error .mutagen
+    else
+      match loadComments (ofLE (r1.take 4)) 0 (r1.drop 4) with
+      | none => .error .mutagen
+      | some none => .error .notImplemented
+      | some (some (cs, r2)) =>
+        if framing then
+          match r2 with
+          | b :: r3 => if b.toNat % 2 = 1 then .ok (vendor, cs, r3) else .error .mutagen
+          | [] => .error .mutagen
+        else .ok (vendor, cs, r2)
+
+/-- what `OggX(fileobj).tags` holds after loading: the codec's comment constructor (given `info.serial`
+and the position the info constructor left) followed by `VComment.load` -/
+def readTags (c : Codec) (f : Bytes) (serial pos : Nat) : Except PyErr (Bytes × List (Bytes × Bytes) × Bytes) :=
+  match readComment c f serial pos with
+  | .error e => .error e
+  | .ok data => loadVC data c.framing
+
 /-! ### specification side -/
 
 /-- the bytes of a page: what `Page.render` returns when it returns something -/
